@@ -6,12 +6,20 @@ Correspondence (model = lean/SV/Model/C09.lean):
   filter       curl._filter_headers                                   vs filterHeaders
   generate     curl.generate                                          vs generate       structured random requests
   as_curl      Case.as_curl_command (real Case, real prepare_request) vs generate applied to the real prepared request
+  recorder     ScenarioRecorder (record_case / record_response / record_request / record_check_* / find_failure_data)
+               driven through the real validate_response of the unit and the stateful executor with scripted checks
+               that derive cases and report failures for them       vs run / findFailureData   generated histories
 Specification validation (spec = lean/SV/Spec/C09.lean; a difference is an infrastructure error, exit 2):
   sh-spec      shParse   vs the real /bin/sh on random lines of the fragment and on every printed command
   curl-spec    curlSem   vs the real curl against a loopback recorder (witnesses in quick, random argv in thorough)
 Replay (the property on the implementation): every command the real code prints is judged by the Lean
 specification `reproduces` against the real prepared request; in the thorough tier the command is also executed
 by the real sh + curl against a loopback recorder and compared with the request `requests` really sent.
+For a recorder history the original is the one the Lean specification selects (`expectedData`: the case and the
+exchange most recently recorded for the id the sample is listed under, at the time of the failure).
+  engine       real engine runs (loopback server, `ignored_auth` + a check that derives cases, generated security
+               schemes / credentials / server policies): every code sample of every recorder is judged against the
+               request the *server received* for that test case id (quick: specification; thorough: also sh + curl).
 """
 from __future__ import annotations
 
@@ -66,6 +74,7 @@ SIG_NUL = "C09:generate:NUL-character-cannot-be-passed-as-a-command-line-argumen
 
 SIG_BOUNDARY = "C09:as_curl_command:multipart-Content-Type-of-the-sent-request-kept-while-the-body-gets-a-new-boundary"
 
+KNOWN_SITE_SIGS = (SIG_EMPTY, SIG_AT, SIG_FILTER, SIG_NUL, SIG_BOUNDARY)
 SITES = ("emptyHeader", "dataAt", "filter")
 AS_FOUND = {s: "asFound" for s in SITES}
 
@@ -276,13 +285,14 @@ class _Rec(socketserver.StreamRequestHandler):
             return
         parts = line.rstrip(b"\r\n").split(b" ")
         method, target = parts[0], b" ".join(parts[1:-1])
-        headers = []
+        headers, exact = [], []
         while True:
             h = self.rfile.readline(1 << 20)
             if h in (b"\r\n", b"\n", b""):
                 break
             name, _, value = h.rstrip(b"\r\n").partition(b":")
             headers.append([name.decode("latin-1"), value.strip(b" \t").decode("latin-1")])
+            exact.append([name.decode("latin-1"), value.lstrip(b" \t").decode("latin-1")])   # trailing blanks as sent
         low = {k.lower(): v for k, v in headers}
         if low.get("expect", "").lower() == "100-continue":
             self.wfile.write(b"HTTP/1.1 100 Continue\r\n\r\n")
@@ -299,9 +309,13 @@ class _Rec(socketserver.StreamRequestHandler):
                 self.rfile.readline()
         elif "content-length" in low:
             body = self.rfile.read(int(low["content-length"]))
-        self.server.records.append({"method": method.decode("latin-1"), "target": target.decode("latin-1"),
-                                    "headers": headers, "body": body})
-        self.wfile.write(b"HTTP/1.1 200 OK\r\nContent-Length: 0\r\nConnection: close\r\n\r\n")
+        record = {"method": method.decode("latin-1"), "target": target.decode("latin-1"), "headers": headers, "body": body,
+                  "headers_as_sent": exact}
+        self.server.records.append(record)
+        policy = getattr(self.server, "policy", None)
+        status = policy(record) if policy else 200
+        reason = {200: b"OK", 401: b"Unauthorized"}[status]
+        self.wfile.write(b"HTTP/1.1 %d %s\r\nContent-Length: 0\r\nConnection: close\r\n\r\n" % (status, reason))
         self.wfile.flush()
 
 
@@ -594,7 +608,7 @@ def corr_filter(chk, drv, tbl, auto, variant):
             chk.disagreement("filter", {"headers": hs, "known": known}, m[0], impl)
 
 
-def judge_commands(chk, drv, mechanism, items, tbl, auto, real_sh=True):
+def judge_commands(chk, drv, mechanism, items, tbl, auto, real_sh=True, site=None):
     """items: [(cmd, orig, in_scope, replay_input)] — the specification judges what the implementation printed.
     Returns, aligned with `items`, what the command denotes: curlSem of the argv (specification's shParse, or the real
     sh where the text is outside the specification's fragment); None where no command was printed."""
@@ -608,11 +622,11 @@ def judge_commands(chk, drv, mechanism, items, tbl, auto, real_sh=True):
             outs[i]["sem_by_real_sh"] = sem
     denoted = iter([j.get("sem") or j.get("sem_by_real_sh") for j in outs])
     result = [next(denoted) if it[0] is not None else None for it in all_items]
-    _judge_verdicts(chk, mechanism, items, outs, shs, tbl, auto, real_sh)
+    _judge_verdicts(chk, mechanism, items, outs, shs, tbl, auto, real_sh, site)
     return result
 
 
-def _judge_verdicts(chk, mechanism, items, outs, shs, tbl, auto, real_sh):
+def _judge_verdicts(chk, mechanism, items, outs, shs, tbl, auto, real_sh, site=None):
     for it, j, real in zip(items, outs, shs):
         cmd, orig, in_scope, rin = it[:4]
         if "__err__" in j:
@@ -631,7 +645,18 @@ def _judge_verdicts(chk, mechanism, items, outs, shs, tbl, auto, real_sh):
         if j["ok"]:
             chk.feature(f"{mechanism}:reproduced")
             continue
+        downstream = it[5] if len(it) > 5 else None
+        elsewhere = site and downstream is not None and cmd.lstrip(" ") != downstream
         for sig, what in classify(cmd, orig, j, tbl, auto):
+            if elsewhere:
+                # the command is not what the real `as_curl_command` prints for the data the model selects for the
+                # reported case: the fault is in the selection upstream of `generate`, whatever the symptom looks like
+                aspect = ("header-lost" if sig in (SIG_EMPTY, SIG_FILTER, SIG_BOUNDARY) or sig.endswith("filtered-out")
+                          else sig.rsplit(":", 1)[1])
+                sig = f"C09:{site}:code-sample-built-from-another-request-than-the-one-of-the-reported-case:{aspect}"
+            elif site and sig.startswith("C09:generate:") and sig not in KNOWN_SITE_SIGS:
+                # the command was printed for a request selected upstream of `generate`: name that site
+                sig = f"C09:{site}:" + sig[len("C09:generate:"):]
             chk.feature(f"{mechanism}:violation:{sig.split(':', 1)[1][:40]}")
             chk.violation(sig, what, {"kind": "command", "mechanism": mechanism, "input": rin, "command": cmd,
                                       "original": orig, "spec": j})
@@ -1038,11 +1063,62 @@ def canon_wire(rec):
             "headers": [[k, v.replace(b.decode(), "BOUNDARY")] for k, v in rec["headers"]]}
 
 
+def wire_problems(orig_wire, got, r, tbl, auto, case_headers, site="loopback"):
+    """what the real curl sent (`got`) against what was sent originally (`orig_wire`) -> [(signature, what)]"""
+    own = {"host", "user-agent", "accept", "content-length", "content-type", "expect"}
+    problems = []
+    if r.returncode != 0 or len(got) != 1:
+        problems.append((f"C09:{site}:curl-did-not-send-one-request", f"curl rc={r.returncode} requests={len(got)} "
+                         f"stderr={r.stderr[-200:]!r}"))
+        return problems
+    g = got[0]
+    if g["method"] != orig_wire["method"]:
+        problems.append((f"C09:{site}:method-differs", f"{g['method']} vs {orig_wire['method']}"))
+    if g["target"] != orig_wire["target"]:
+        problems.append((f"C09:{site}:url-differs", f"{g['target']} vs {orig_wire['target']}"))
+    if g["body"] != orig_wire["body"]:
+        if orig_wire["body"].startswith(b"@"):
+            problems.append((SIG_AT, f"body {orig_wire['body']!r} re-sent as {g['body']!r}"))
+        else:
+            problems.append((f"C09:{site}:body-differs", f"{g['body']!r} vs {orig_wire['body']!r}"))
+    ghs = [(k.lower(), v) for k, v in g["headers"]]
+    excluded = lower_names(tbl)
+    for k, v in wire_headers(orig_wire, auto):
+        if (k.lower(), v) in ghs:
+            continue
+        if v == "":
+            problems.append((SIG_EMPTY, f"header {k!r} (empty value) is not re-sent"))
+        elif k.lower() == "content-type" and "boundary=BOUNDARY" in v:
+            problems.append((SIG_BOUNDARY, f"Content-Type re-sent as {[b for a, b in ghs if a == 'content-type']}, "
+                                           "naming another boundary than the body's"))
+        elif k.lower() in excluded and k not in case_headers:
+            problems.append((SIG_FILTER, f"header {k}: {v!r} is not re-sent"))
+        else:
+            problems.append((f"C09:{site}:header-lost", f"header {k}: {v!r} is not re-sent"))
+    ohs = {(k.lower(), v) for k, v in orig_wire["headers"]}
+    for k, v in ghs:
+        if (k, v) not in ohs and k not in own and not any(sig == SIG_BOUNDARY for sig, _ in problems):
+            problems.append((f"C09:{site}:header-invented", f"curl sent {k}: {v!r}"))
+    return problems
+
+
+def _always_fails(ctx, response, case):
+    raise AssertionError("verif: this check always fails")
+
+
+def _validate_response_shows(case, response):
+    from schemathesis.core.failures import FailureGroup
+    try:
+        case.validate_response(response, checks=[_always_fails])
+    except FailureGroup as group:
+        return shown_command(str(group.message))
+    return None
+
+
 def loopback_replay(chk, drv, rec, tbl, auto, n):
     rng = chk.rng
     base = f"http://127.0.0.1:{rec.port}/api"
     schema = build_schema(base)
-    own = {"host", "user-agent", "accept", "content-length", "content-type", "expect"}
     for _ in range(n):
         op, kw = gen_case(rng, schema, ascii_only=True)
         user = rng.choice(USER_HEADERS)
@@ -1070,44 +1146,682 @@ def loopback_replay(chk, drv, rec, tbl, auto, n):
         if "\0" in cmd:
             chk.violation(SIG_NUL, "the command contains a NUL character", {"kind": "command", "input": rin, "command": cmd})
             continue
+        # the same command as `Case.validate_response` reports it (run_checks, as_curl_command with the headers of the
+        # sent request, format_failures): what the reader is shown is what is executed below
+        shown = _validate_response_shows(case, response)
+        if shown is None:
+            chk.disagreement("loopback", rin, "a report with a 'Reproduce with:' command", "none")
+        else:
+            same = shown.lstrip(" ") == case.as_curl_command(headers=dict(response.request.headers), verify=response.verify)
+            chk.feature(f"loopback:validate_response-shows-as_curl_command={same}")
+            if not same or verify == response.verify:
+                cmd = shown
         r = run_curl_command(cmd)
         got = [canon_wire(x) for x in rec.take()]
-        problems = []
-        if r.returncode != 0 or len(got) != 1:
-            problems.append(("C09:loopback:curl-did-not-send-one-request", f"curl rc={r.returncode} requests={len(got)} "
-                             f"stderr={r.stderr[-200:]!r}"))
-        else:
-            g = got[0]
-            if g["method"] != orig_wire["method"]:
-                problems.append(("C09:loopback:method-differs", f"{g['method']} vs {orig_wire['method']}"))
-            if g["target"] != orig_wire["target"]:
-                problems.append(("C09:loopback:url-differs", f"{g['target']} vs {orig_wire['target']}"))
-            if g["body"] != orig_wire["body"]:
-                if orig_wire["body"].startswith(b"@"):
-                    problems.append((SIG_AT, f"body {orig_wire['body']!r} re-sent as {g['body']!r}"))
-                else:
-                    problems.append(("C09:loopback:body-differs", f"{g['body']!r} vs {orig_wire['body']!r}"))
-            ghs = [(k.lower(), v) for k, v in g["headers"]]
-            excluded = lower_names(tbl)
-            for k, v in wire_headers(orig_wire, auto):
-                if (k.lower(), v) in ghs:
-                    continue
-                if v == "":
-                    problems.append((SIG_EMPTY, f"header {k!r} (empty value) is not re-sent"))
-                elif k.lower() == "content-type" and "boundary=BOUNDARY" in v:
-                    problems.append((SIG_BOUNDARY, f"Content-Type re-sent as {[b for a, b in ghs if a == 'content-type']}, "
-                                                   "naming another boundary than the body's"))
-                elif k.lower() in excluded and k not in (case.headers or {}):
-                    problems.append((SIG_FILTER, f"header {k}: {v!r} is not re-sent"))
-                else:
-                    problems.append(("C09:loopback:header-lost", f"header {k}: {v!r} is not re-sent"))
-            ohs = {(k.lower(), v) for k, v in orig_wire["headers"]}
-            for k, v in ghs:
-                if (k, v) not in ohs and k not in own and not any(sig == SIG_BOUNDARY for sig, _ in problems):
-                    problems.append(("C09:loopback:header-invented", f"curl sent {k}: {v!r}"))
+        problems = wire_problems(orig_wire, got, r, tbl, auto, case.headers or {})
         chk.feature("loopback:reproduced" if not problems else "loopback:violation")
         for sig, what in problems:
             chk.violation(sig, what, {"kind": "command", "mechanism": "loopback", "input": rin, "command": cmd,
+                                      "original_wire": {**orig_wire, "body": orig_wire["body"].decode("latin-1")},
+                                      "curl_wire": [{**x, "body": x["body"].decode("latin-1")} for x in got]})
+
+
+# ---------------------------------------------------------------------------------------------------------------
+# recorder histories: the real ScenarioRecorder, driven through the real `validate_response` of both executors
+#
+# A *plan* (JSON-able, so that a replay file can re-run it) names a few real cases and a list of steps: direct
+# recorder calls and `validate_response` blocks whose checks are scripted — they derive cases, record them and their
+# exchanges through the public CheckContext API (as `ignored_auth` does) and end by passing, skipping, raising a
+# Failure that names a case (or none, or an unknown one), an AssertionError, or a FailureGroup.
+# The *log* is the flat sequence of recorder operations that were really performed: the history the model runs.
+
+MARKER = "Reproduce with:"
+
+
+def shown_command(text):
+    """the command a reader takes from a failure report: what follows the 'Reproduce with' line (line breaks dropped,
+    the indentation kept: the shell skips it, and so does the specification's shParse)"""
+    if MARKER not in text:
+        return None
+    # (the command ends with the quoted URL, outside any quotation: what trails it is layout)
+    return text.split(MARKER, 1)[1].lstrip(" ").lstrip("\n").rstrip(" \n")
+
+
+def render_reports(recorder):
+    """the failure reports of one scenario as the JUnit handler / `Case.validate_response` render them:
+    Statistic.on_scenario_finished groups the recorder's failed checks by test case, format_failures prints each group
+    -> [(test case id as printed, command as shown)]"""
+    from schemathesis.cli.commands.run.context import Statistic
+    stat = Statistic()
+    stat.on_scenario_finished(recorder)
+    return render_groups(stat.failures.get(recorder.label, {}).values())
+
+
+def render_groups(groups):
+    """each group as junitxml.add_failure renders it, and as the CLI's display_failures_for_single_test does (its
+    styling formatter; the ANSI attributes removed, as click.echo does for a file or a pipe)"""
+    import click
+    from schemathesis.cli.commands.run.handlers.output import failure_formatter
+    from schemathesis.core.failures import format_failures
+    from schemathesis.core.output import OutputConfig
+    out = []
+    for idx, group in enumerate(groups, 1):
+        kw = dict(case_id=f"{idx}. Test Case ID: {group.case_id}", response=group.response, failures=group.failures,
+                  curl=group.code_sample, config=OutputConfig())
+        texts = [format_failures(**kw), click.unstyle(format_failures(formatter=failure_formatter, **kw))]
+        for text in dict.fromkeys(texts):
+            m = re.match(r"\d+\. Test Case ID: (.*)\n", text)
+            out.append((m.group(1) if m else None, shown_command(text)))
+    return out
+
+
+REC_USER_HEADERS = [None, None, {"X-API-Key": "valid-key"}, {"X-API-Key": "k'ey $x", "X-Tenant": "it's acme"},
+                    {"Authorization": "Bearer a.b"}, {"X-Tenant": "acme"}, {"X-Empty2": ""}, {"Accept": "application/json"},
+                    {"X-A": "it's", "X-B": '"q" $x'}, {"Cookie": "a=b"}, {"X-Key": "`id`"}]
+
+
+def _gen_plan_case(rng, schema):
+    for _ in range(50):
+        op, kw = gen_case(rng, schema, ascii_only=rng.random() < 0.85)
+        if kw.get("media_type") == "multipart/form-data":     # a fresh boundary per prepare(): not a faithful re-preparation
+            continue
+        try:
+            case = op.Case(**kw)
+            REQUESTS_TRANSPORT.serialize_case(case, base_url=case.operation.base_url, headers=None)
+            requests.Request(**REQUESTS_TRANSPORT.serialize_case(case, base_url=case.operation.base_url, headers=None)).prepare()
+        except Exception:  # noqa: BLE001
+            continue
+        return {"path": op.path, "method": op.method.upper(), "case": case_input(op, kw, None, "plan", True)["case"]}
+    raise InfraError("no acceptable case in 50 draws")
+
+
+def _derive(rng, spec):
+    """a plan case derived from another one the way checks do: drop / replace a header, a query parameter, a cookie"""
+    kw = json.loads(json.dumps(spec["case"]))
+    how = rng.choice(["drop-header", "set-header", "drop-query", "set-query", "same", "drop-cookie"])
+    if how == "drop-header" and kw.get("headers"):
+        kw["headers"].pop(rng.choice(sorted(kw["headers"])))
+    elif how == "set-header" and kw.get("headers"):
+        kw["headers"][rng.choice(sorted(kw["headers"]))] = rng.choice(["SCHEMATHESIS-INVALID-VALUE", "it's", ""])
+    elif how == "drop-query" and kw.get("query"):
+        kw["query"].pop(rng.choice(sorted(kw["query"])))
+    elif how == "set-query" and kw.get("query"):
+        kw["query"][rng.choice(sorted(kw["query"]))] = rng.choice(["SCHEMATHESIS-INVALID-VALUE", "a b", "'"])
+    elif how == "drop-cookie":
+        kw.pop("cookies", None)
+    return {**spec, "case": kw}
+
+
+def gen_plan(rng, schema):
+    cases = []
+
+    def new_case(base=None):
+        spec = _derive(rng, cases[base]) if base is not None else _gen_plan_case(rng, schema)
+        # ids: mostly fresh, sometimes the id of an earlier case (a second object under the same key)
+        cid = f"c{len(cases)}" if not cases or rng.random() < 0.92 else rng.choice(cases)["id"]
+        cases.append({**spec, "id": cid})
+        return len(cases) - 1
+
+    def exchange(ci, key=None, user=None):
+        """record an exchange for the case `ci` under `key` (its own id unless told otherwise)"""
+        r = rng.random()
+        kind = "response" if r < 0.82 else "request" if r < 0.92 else None
+        if kind is None:
+            return []
+        src = ci if rng.random() < 0.95 or len(cases) < 2 else rng.randrange(len(cases))
+        return [{"t": kind, "id": key or cases[ci]["id"], "from": src,
+                 "user": user if user is not None or rng.random() < 0.5 else rng.choice(REC_USER_HEADERS),
+                 "verify": rng.random() < 0.7}]
+
+    def failure_target(ci, derived):
+        r = rng.random()
+        if derived and r < 0.6:
+            return cases[rng.choice(derived)]["id"]
+        if r < 0.75:
+            return None
+        if r < 0.8:
+            return ""
+        if r < 0.88:
+            return cases[ci]["id"]
+        if r < 0.95:
+            return rng.choice(cases)["id"]
+        return "nobody"
+
+    steps, n_msg = [], [0]
+
+    def msg():
+        n_msg[0] += 1
+        return f"m{n_msg[0]}"
+
+    for _ in range(rng.choice([1, 1, 2, 3])):
+        ci = new_case()
+        user = rng.choice(REC_USER_HEADERS)
+        steps.append({"t": "case", "c": ci, "parent": None if rng.random() < 0.8 or ci == 0 else cases[rng.randrange(ci)]["id"]})
+        steps += exchange(ci, user=user)
+        flavour = rng.choice(["unit", "unit", "stateful"])
+        checks, asserted = [], False
+        for k in range(rng.choice([1, 1, 2, 3])):
+            inner, derived = [], []
+            for _ in range(rng.choice([0, 1, 1, 2])):
+                di = new_case(base=ci if rng.random() < 0.85 else None)
+                derived.append(di)
+                inner.append({"t": "case", "c": di, "parent": cases[ci]["id"] if rng.random() < 0.9 else None})
+                # the explicit headers of the derived request differ from the parent's (credentials stripped / replaced)
+                duser = rng.choice([None, user, {k2: v for k2, v in (user or {}).items() if k2 not in ("X-API-Key", "Authorization")},
+                                    rng.choice(REC_USER_HEADERS)])
+                inner += exchange(di, user=duser or {})
+            if rng.random() < 0.08:      # a later exchange replaces the one on record for the case under validation
+                inner += exchange(ci)
+            r = rng.random()
+            if r < 0.2:
+                end = {"t": "success"}
+            elif r < 0.25:
+                end = {"t": "skip"}
+            elif r < 0.8:
+                end = {"t": "failure", "case_id": failure_target(ci, derived), "msg": msg()}
+            elif r < 0.88 and not (flavour == "stateful" and asserted):
+                end, asserted = {"t": "assert", "msg": msg()}, True
+            else:
+                end = {"t": "group", "failures": [{"case_id": failure_target(ci, derived), "msg": msg()}
+                                                  for _ in range(rng.choice([1, 2, 3]))]}
+            checks.append({"name": f"check{len(steps)}_{k}", "inner": inner, "end": end})
+        steps.append({"t": "validate", "flavour": flavour, "c": ci, "checks": checks})
+    return {"cases": cases, "steps": steps}
+
+
+def _rec_request(prep):
+    text, is_text = text_of(prep.body)
+    return {"method": str(prep.method), "uri": str(prep.url), "body": text, "binary": not is_text,
+            "headers": [[str(k), [str(v)]] for k, v in prep.headers.items()]}
+
+
+def run_plan(schema, plan):
+    """-> the log (history), the outcome of every `failure` entry, what the real recorder holds at the end"""
+    import threading as _threading
+
+    from schemathesis.checks import CheckContext
+    from schemathesis.core.failures import Failure, FailureGroup
+    from schemathesis.core.transport import Response
+    from schemathesis.engine.control import ExecutionControl
+    from schemathesis.engine.phases.stateful._executor import validate_response as stateful_validate
+    from schemathesis.engine.phases.stateful.context import StatefulContext
+    from schemathesis.engine.phases.unit._executor import validate_response as unit_validate
+    from schemathesis.engine.recorder import ScenarioRecorder
+
+    objs = []
+    for spec in plan["cases"]:
+        case = rebuild_case(schema, spec)
+        case.id = spec["id"]
+        objs.append(case)
+    session = requests.Session()
+    recorder = ScenarioRecorder(label="verif")
+    ctx = CheckContext(override=None, auth=None, headers=None, config={}, transport_kwargs=None, recorder=recorder)
+    log = []
+
+    def prepared(step):
+        case = objs[step["from"]]
+        kwargs = REQUESTS_TRANSPORT.serialize_case(case, base_url=case.operation.base_url, headers=step["user"])
+        return session.prepare_request(requests.Request(**kwargs))
+
+    def response_of(prep, verify):
+        return Response(status_code=200, headers={}, content=b"", request=prep, elapsed=0.1, verify=verify)
+
+    def direct(step, via_ctx=False):
+        if step["t"] == "case":
+            case = objs[step["c"]]
+            if via_ctx and step["parent"] is not None:
+                ctx.record_case(parent_id=step["parent"], case=case)
+            else:
+                recorder.record_case(parent_id=step["parent"], transition=None, case=case)
+            log.append({"k": "case", "parent": step["parent"], "id": case.id, "obj": step["c"]})
+        elif step["t"] == "response":
+            prep = prepared(step)
+            (ctx if via_ctx else recorder).record_response(case_id=step["id"], response=response_of(prep, step["verify"]))
+            log.append({"k": "response", "id": step["id"], "req": _rec_request(prep), "verify": step["verify"]})
+        elif step["t"] == "request":
+            prep = prepared(step)
+            recorder.record_request(case_id=step["id"], request=prep)
+            log.append({"k": "request", "id": step["id"], "req": _rec_request(prep)})
+
+    def make_check(spec, case):
+        def check(ctx_, response, case_):
+            for st in spec["inner"]:
+                direct(st, via_ctx=True)
+            end = spec["end"]
+            if end["t"] == "success":
+                log.append({"k": "success", "name": spec["name"], "id": case_.id})
+                return None
+            if end["t"] == "skip":
+                return True
+            if end["t"] == "failure":
+                log.append({"k": "failure", "name": spec["name"], "pid": case.id, "fcid": end["case_id"], "msg": end["msg"]})
+                raise Failure(operation="op", title="t", message=end["msg"], case_id=end["case_id"])
+            if end["t"] == "assert":
+                log.append({"k": "failure", "name": spec["name"], "pid": case.id, "fcid": None, "msg": end["msg"]})
+                raise AssertionError(end["msg"])
+            for f in end["failures"]:
+                log.append({"k": "failure", "name": spec["name"], "pid": case.id, "fcid": f["case_id"], "msg": f["msg"]})
+            raise FailureGroup([Failure(operation="op", title="t", message=f["msg"], case_id=f["case_id"]) for f in end["failures"]])
+        check.__name__ = spec["name"]
+        return check
+
+    def failed_nodes():
+        return sum(1 for nodes in recorder.checks.values() for n in nodes if n.failure_info is not None)
+
+    outcomes = {}     # index in the log of a `failure` entry -> "ok" | exception class name
+    anomalies = []    # what the real code did that no recorder history explains (reported as a disagreement)
+    for step in plan["steps"]:
+        if step["t"] != "validate":
+            direct(step)
+            continue
+        case = objs[step["c"]]
+        start, before = len(log), failed_nodes()
+        resp = response_of(prepared({"from": step["c"], "user": None}), True)
+        checks = [make_check(c, case) for c in step["checks"]]
+        error = None
+        try:
+            if step["flavour"] == "unit":
+                unit_validate(case=case, ctx=ctx, checks=checks, response=resp, continue_on_failure=True, recorder=recorder)
+            else:
+                stateful_validate(response=resp, case=case, stateful_ctx=StatefulContext(), check_ctx=ctx,
+                                  control=ExecutionControl(stop_event=_threading.Event(), max_failures=None),
+                                  checks=checks, recorder=recorder)
+        except FailureGroup:
+            pass
+        except Exception as e:  # noqa: BLE001  (what `on_failure` lets escape: KeyError / AssertionError of find_failure_data)
+            error = type(e).__name__
+        done = failed_nodes() - before
+        fidx = [i for i in range(start, len(log)) if log[i]["k"] == "failure"]
+        for i in fidx[:done]:
+            outcomes[i] = "ok"
+        if error is not None:
+            if done >= len(fidx):
+                anomalies.append(f"validate_response raised {error} outside a reported failure")
+                break
+            outcomes[fidx[done]] = error
+            del log[fidx[done] + 1:]          # the rest of the group / of the block was not executed
+        elif done != len(fidx):
+            anomalies.append(f"{len(fidx)} failures reported, {done} failed check nodes recorded, no exception")
+            for i in fidx[done:]:
+                outcomes[i] = "silently-dropped"
+    by_msg = {}
+    for key, nodes in recorder.checks.items():
+        for n in nodes:
+            if n.failure_info is not None:
+                by_msg[n.failure_info.failure.message] = (key, n.failure_info.code_sample)
+    try:
+        shown = render_reports(recorder)
+    except Exception as e:  # noqa: BLE001
+        shown = f"<{type(e).__name__}: {e}>"
+    final = {
+        "anomalies": anomalies,
+        "shown": shown,
+        "samples": {key: [n.failure_info.code_sample for n in nodes if n.failure_info is not None]
+                    for key, nodes in recorder.checks.items()},
+        "checks": {key: [[n.name, n.failure_info is not None] for n in nodes] for key, nodes in recorder.checks.items()},
+        "cases": {key: [next(i for i, o in enumerate(objs) if o is node.value), node.parent_id]
+                  for key, node in recorder.cases.items()},
+        "interactions": sorted(recorder.interactions),
+    }
+    return log, outcomes, by_msg, final, objs
+
+
+def _wire_log(log):
+    """the history as the driver reads it"""
+    out = []
+    for e in log:
+        if e["k"] in ("response", "request"):
+            e = {**e, "req": {k: v for k, v in e["req"].items() if k != "binary"}}
+        out.append({k: v for k, v in e.items() if k != "msg"})
+    return out
+
+
+def _model_req(objs, fd):
+    """the prepared request `generate` receives for the data the model selected: real prepare_request (third party)"""
+    from schemathesis.transport.prepare import prepare_request
+    case = objs[fd["obj"]]
+    return prepared_to_req(prepare_request(case, {k: v for k, v in fd["headers"]}, False), case.headers, fd["verify"])
+
+
+def _faithful(objs, data, sent):
+    """hypothesis `Faithful` of the theorem, evaluated with the real prepare_request on what the specification selected"""
+    from schemathesis.transport.prepare import prepare_request
+    inner = prepare_request(objs[data["obj"]], {k: v for k, v in data["headers"]}, False)
+    text, is_text = text_of(inner.body)
+    return (is_text and str(inner.method) == sent["method"] and str(inner.url) == sent["uri"] and text == sent["body"]
+            and sorted([str(k), str(v)] for k, v in inner.headers.items()) == sorted(data["headers"]))
+
+
+def corr_recorder(chk, drv, tbl, auto, variants, n):
+    rng = chk.rng
+    schema = build_schema("http://127.0.0.1:1/api")
+    runs = []
+    for _ in range(n):
+        plan = gen_plan(rng, schema)
+        log, outcomes, by_msg, final, objs = run_plan(schema, plan)
+        runs.append((plan, log, outcomes, by_msg, final, objs))
+    models = drv.batch([("history", {"ops": _wire_log(r[1])}) for r in runs])
+    gen_reqs, sel_reqs = [], []
+    for ri, ((plan, log, outcomes, by_msg, final, objs), m) in enumerate(zip(runs, models)):
+        if "__err__" in m:
+            raise InfraError(f"model history failed: {m}")
+        fidx = [i for i, e in enumerate(log) if e["k"] == "failure"]
+        chk.case("recorder", key=_wire_log(log), nontrivial=len(fidx) > 0, sample={"plan": plan, "checks": final["checks"]})
+        chk.feature(f"recorder:failures={min(len(fidx), 4)}")
+        chk.feature(f"recorder:cases={min(len(plan['cases']), 5)}")
+        for e in log:
+            if e["k"] == "failure":
+                chk.feature("recorder:failure-names-" + ("none" if not e["fcid"] else "the-validated-case" if e["fcid"] == e["pid"]
+                                                         else "another-case"))
+        # --- correspondence: outcomes (raised or not), what is listed under which id, what the recorder holds
+        impl_out = ["ok" if outcomes.get(i) == "ok" else "error" for i in fidx]
+        model_out = ["ok" if "ok" in o else "error" for o in m["outcomes"]]
+        for i, o in zip(fidx, m["outcomes"]):
+            chk.feature(f"recorder:outcome:{'ok' if 'ok' in o else o['error']}")
+            if "error" in o and outcomes.get(i) not in ("ok", o["error"]):
+                chk.feature("recorder:another-exception-class")       # not property-relevant: counted only
+        model_checks = {k: [[nm, fd is not None] for nm, fd in nodes] for k, nodes in m["checks"]}
+        model_cases = {k: [obj, parent] for k, obj, parent in m["cases"]}
+        if (impl_out != model_out or model_checks != final["checks"] or model_cases != final["cases"]
+                or sorted(m["interactions"]) != final["interactions"] or final["anomalies"]):
+            chk.disagreement("recorder", {"plan": plan}, {"outcomes": model_out, "checks": model_checks, "cases": model_cases},
+                             {"outcomes": impl_out, "checks": final["checks"], "cases": final["cases"],
+                              "anomalies": final["anomalies"]})
+        for i, o in zip(fidx, m["outcomes"]):
+            if outcomes.get(i) != "ok":
+                continue
+            listed = by_msg.get(log[i]["msg"])
+            if listed is None:
+                chk.disagreement("recorder", {"plan": plan}, "a failed check node for " + log[i]["msg"], "none")
+                continue
+            key, cmd = listed
+            # replay: the specification selects the original for the id the real code lists the sample under
+            sel_reqs.append((ri, i, key, cmd))
+            # correspondence: the model's selection, `generate` on the real prepared request for it
+            if "ok" in o:
+                try:
+                    req = _model_req(objs, o["ok"])
+                except Exception as e:  # noqa: BLE001
+                    raise InfraError(f"prepare_request failed on the model's selection {o}: {e!r}")
+                gen_reqs.append((ri, i, cmd, req))
+    gens = drv.batch([("generate", {"vs": variants, "tbl": tbl, "req": g[3]}) for g in gen_reqs])
+    downstream = {}     # the real as_curl_command on the data the *model* selects (to tell selection faults from printing faults)
+    for (ri, i, cmd, req), gm in zip(gen_reqs, gens):
+        if "__err__" in gm:
+            raise InfraError(f"model generate failed: {gm}")
+        fd = next(o for k, o in zip([k for k, e in enumerate(runs[ri][1]) if e["k"] == "failure"], models[ri]["outcomes"]) if k == i)["ok"]
+        try:
+            downstream[ri, i] = (fd["id"], runs[ri][5][fd["obj"]].as_curl_command(headers={k: v for k, v in fd["headers"]},
+                                                                                 verify=fd["verify"]))
+        except Exception:  # noqa: BLE001
+            pass
+    sels = drv.batch([("select", {"ops": _wire_log(runs[ri][1]), "n": i, "key": key}) for ri, i, key, _ in sel_reqs])
+    items = []
+    for (ri, i, key, cmd), sel in zip(sel_reqs, sels):
+        plan, log, outcomes, by_msg, final, objs = runs[ri]
+        if "__err__" in sel:
+            raise InfraError(f"specification select failed: {sel}")
+        rin = {"plan": plan, "failure": log[i]["msg"], "listed_under": key}
+        data = sel["data"]
+        if "ok" not in data:
+            chk.feature("recorder:violation:sample-without-recorded-exchange")
+            chk.violation("C09:failure-report:code-sample-listed-under-a-test-case-without-a-recorded-exchange",
+                          f"a code sample is listed under test case {key!r}, for which no case / no exchange with a response "
+                          f"is on record at that point ({data['error']})",
+                          {"kind": "history", "input": rin, "command": cmd, "spec": sel})
+            continue
+        sent, d = sel["sent"], data["ok"]
+        orig = {"method": sent["method"], "url": sent["uri"], "body": sent["body"], "headers": d["headers"],
+                "verify": d["verify"], "known": list(objs[d["obj"]].headers or {})}
+        entry = next(e for e in reversed(log[:i]) if e["k"] in ("response", "request") and e["id"] == key)
+        why = ("binary-body" if entry["req"]["binary"] else "non-ascii-header" if not all(v.isascii() for _, v in d["headers"])
+               else None if _faithful(objs, d, sent) else "exchange-not-prepared-from-the-case-on-record")
+        chk.feature(f"recorder:replay-scope:{why or 'in'}")
+        # (no selection by the model, or one listed under another id: whatever was printed, it was selected wrongly)
+        mid, mcmd = downstream.get((ri, i), (None, ""))
+        items.append((cmd, orig, why is None, rin, True, mcmd if mid == key else ""))
+    by_cmd = {}
+    for it, d in zip(items, judge_commands(chk, drv, "recorder", items, tbl, auto, site="failure-report")):
+        by_cmd[it[0]] = d
+    # --- the report: the command shown under "Test Case ID: k" (Statistic grouping + format_failures) reproduces the
+    #     request of k: it is judged, indentation included, against the original of the code samples listed under k
+    judged = {}
+    for (ri, i, key, cmd), it in zip([sr for sr, sel in zip(sel_reqs, sels) if "ok" in sel["data"]], items):
+        judged.setdefault((ri, key), []).append(it)
+    report_items = []
+    for ri, (plan, log, outcomes, by_msg, final, objs) in enumerate(runs):
+        if isinstance(final["shown"], str):
+            chk.case("report", key=_wire_log(log), nontrivial=True)
+            chk.disagreement("report", {"plan": plan}, "a report for every test case with failed checks", final["shown"])
+            continue
+        failed_keys = {k for k, samples in final["samples"].items() if samples}
+        if failed_keys != {k for k, _ in final["shown"]}:
+            chk.feature("report:test-cases-with-failed-checks-and-no-report")   # (checks under an id without a case node)
+        for kid, text in final["shown"]:
+            chk.case("report", key=[_wire_log(log), kid], nontrivial=True, sample={"test_case": kid, "shown": text})
+            if kid is None or text is None:
+                chk.disagreement("report", {"plan": plan}, "'<n>. Test Case ID: <id>' … 'Reproduce with:' <command>", [kid, text])
+                continue
+            same = text.lstrip(" ") in final["samples"].get(kid, [])
+            chk.feature(f"report:shown-command-is-a-code-sample-of-the-case={same}")
+            its = judged.get((ri, kid), [])
+            ref = next((it for it in its if it[0] == text.lstrip(" ")), its[-1] if its else None)
+            if ref is None:
+                if not same:
+                    chk.violation("C09:report:command-shown-under-a-test-case-is-none-of-its-code-samples",
+                                  f"the report shows under test case {kid!r} a command that is none of the code samples "
+                                  f"recorded for it", {"kind": "history", "input": {"plan": plan, "listed_under": kid},
+                                                       "command": text, "samples": final["samples"].get(kid)})
+                continue
+            report_items.append((text, ref[1], ref[2], {**ref[3], "shown_in_report": True}, True, ref[5]))
+    judge_commands(chk, drv, "report", report_items, tbl, auto, site="report")
+    triples = [({"plan": runs[ri][0], "failure": runs[ri][1][i]["msg"]}, gm, cmd) for (ri, i, cmd, req), gm in zip(gen_reqs, gens)]
+    compare_denotations(chk, "recorder", triples, [by_cmd.get(t[2]) for t in triples])
+
+
+# ---------------------------------------------------------------------------------------------------------------
+# real engine runs: every code sample of every scenario against the request the server received for that test case
+
+CASE_ID_HEADER = SCHEMATHESIS_TEST_CASE_HEADER.lower()
+TRICKY = ["it's", "a b", "$HOME", '"q"', "x;y", "`id`", "1"]
+SECURITY = [
+    ("apiKey-header", {"type": "apiKey", "in": "header", "name": "X-API-Key"}),
+    ("apiKey-header", {"type": "apiKey", "in": "header", "name": "X-It's-Key"}),
+    ("apiKey-query", {"type": "apiKey", "in": "query", "name": "api_key"}),
+    ("apiKey-cookie", {"type": "apiKey", "in": "cookie", "name": "sid"}),
+    ("http-bearer", {"type": "http", "scheme": "bearer"}),
+    ("http-basic", {"type": "http", "scheme": "basic"}),
+]
+
+
+def derived_probe(ctx, response, case):
+    """A check of the kind `ignored_auth` is: it sends a variation of the case on its own (one explicit header
+    replaced, one added), records it through the public CheckContext API and reports the failure for *that* case."""
+    from schemathesis.core.failures import Failure
+    from schemathesis.generation.case import Case
+    if case.meta is None and not getattr(derived_probe, "always", False):
+        return True
+    derived = Case(operation=case.operation, method=case.method, path=case.path,
+                   path_parameters=dict(case.path_parameters) if case.path_parameters else None,
+                   headers=case.headers.copy() if case.headers else None,
+                   cookies=dict(case.cookies) if case.cookies else None, query=dict(case.query) if case.query else None,
+                   body=case.body, media_type=case.media_type, meta=case.meta)
+    kwargs = dict(ctx.transport_kwargs or {})
+    headers = dict(kwargs.get("headers") or {})
+    for name in list(headers)[:1]:
+        headers[name] = "probe's $value"
+    headers["X-Probe"] = 'it\'s "here"'
+    kwargs["headers"] = headers
+    kwargs.pop("session", None)
+    ctx.record_case(parent_id=case.id, case=derived)
+    derived_response = case.operation.schema.transport.send(derived, **kwargs)
+    ctx.record_response(case_id=derived.id, response=derived_response)
+    raise Failure(operation=case.operation.label, title="Probe", message=f"probe of {case.operation.label}", case_id=derived.id)
+
+
+def gen_engine_setup(rng):
+    kind, scheme = rng.choice(SECURITY)
+    enum = lambda vals: {"type": "string", "enum": vals}  # noqa: E731
+    ops = {}
+    for path in rng.sample(["/reports", "/it's/{id}", "/items"], rng.choice([1, 2])):
+        params = [{"name": "page", "in": "query", "required": True, "schema": rng.choice([{"type": "integer", "minimum": 1, "maximum": 9},
+                                                                                     enum(rng.sample(TRICKY, 3))])}]
+        if "{id}" in path:
+            params.append({"name": "id", "in": "path", "required": True, "schema": enum(["1", "a b", "it's"])})
+        if rng.random() < 0.6:
+            params.append({"name": "X-Trace", "in": "header", "required": True, "schema": enum(rng.sample(TRICKY, 3))})
+        method = rng.choice(["get", "get", "post", "put"])
+        op = {"security": [{"Sec": []}], "parameters": params, "responses": {"200": {"description": "OK"}}}
+        if method != "get":
+            op["requestBody"] = {"required": True, "content": {rng.choice(["application/json", "text/plain"]): {
+                "schema": enum(rng.sample(["@etc", "it's", "a b", '{"k": "$x"}', "l1\nl2", "x"], 3))}}}
+        ops[path] = {method: op}
+    raw = {"openapi": "3.0.2", "info": {"title": "t", "version": "1"},
+           "components": {"securitySchemes": {"Sec": scheme}}, "paths": ops}
+    net = {"headers": {}, "auth": None, "tls_verify": rng.random() < 0.7}
+    if rng.random() < 0.7:
+        net["headers"]["X-Tenant"] = rng.choice(["acme", "it's acme", "a $b"])
+    cred = rng.random()
+    if kind == "apiKey-header" and cred < 0.75:
+        net["headers"][scheme["name"]] = rng.choice(["valid-key", "k'ey $x", 'se"cret'])
+    elif kind == "http-bearer" and cred < 0.6:
+        net["headers"]["Authorization"] = "Bearer " + rng.choice(["abc.def", "t'ok"])
+    elif kind in ("http-basic", "http-bearer", "apiKey-query", "apiKey-cookie") and cred < 0.85:
+        net["auth"] = ("user", rng.choice(["pw", "p w's"]))
+    policy = rng.choice(["open", "open", "missing-only", "strict"])
+    return {"security": kind, "raw": raw, "network": net, "policy": policy, "probe": rng.random() < 0.5,
+            "phases": rng.choice([["fuzzing"], ["coverage", "fuzzing"], ["examples", "fuzzing"]]),
+            "max_examples": rng.choice([2, 3, 4]), "seed": rng.randint(1, 9999), "scheme": scheme}
+
+
+def _policy(setup):
+    scheme, kind = setup["scheme"], setup["security"]
+
+    def credential(record):
+        hs = {k.lower(): v for k, v in record["headers"]}
+        if "authorization" in hs:
+            return hs["authorization"]
+        if kind == "apiKey-header":
+            return hs.get(scheme["name"].lower())
+        if kind == "apiKey-query":
+            m = re.search(r"[?&]api_key=([^&]*)", record["target"])
+            return m.group(1) if m else None
+        if kind == "apiKey-cookie":
+            m = re.search(r"(?:^|;\s*)sid=([^;]*)", hs.get("cookie", ""))
+            return m.group(1) if m else None
+        return None
+
+    def policy(record):
+        c = credential(record)
+        if setup["policy"] == "open":
+            return 200
+        if setup["policy"] == "missing-only":
+            return 401 if c is None else 200
+        return 401 if c is None or "INVALID" in c else 200
+    return policy
+
+
+def run_engine_setup(setup, rec):
+    """-> [(scenario label, case id, code sample, known header names)], the server's records by test case id"""
+    import hypothesis
+    from schemathesis.engine import events, from_schema
+    from schemathesis.engine.config import EngineConfig, ExecutionConfig, NetworkConfig
+    from schemathesis.engine.phases import PhaseName
+    from schemathesis.specs.openapi.checks import ignored_auth
+    base = f"http://127.0.0.1:{rec.port}/api"
+    schema = schemathesis.openapi.from_dict(setup["raw"]).configure(base_url=base)
+    schema.output_config.sanitize = False
+    rec.srv.policy = _policy(setup)
+    rec.take()
+    phases = {"fuzzing": PhaseName.FUZZING, "coverage": PhaseName.COVERAGE, "examples": PhaseName.EXAMPLES}
+    net = setup["network"]
+    config = EngineConfig(
+        execution=ExecutionConfig(
+            phases=[phases[p] for p in setup["phases"]], checks=[ignored_auth] + ([derived_probe] if setup["probe"] else []),
+            hypothesis_settings=hypothesis.settings(max_examples=setup["max_examples"], deadline=None, database=None,
+                                                    suppress_health_check=list(hypothesis.HealthCheck)),
+            seed=setup["seed"], continue_on_failure=True),
+        network=NetworkConfig(headers=dict(net["headers"]), auth=tuple(net["auth"]) if net["auth"] else None,
+                              tls_verify=net["tls_verify"]))
+    from schemathesis.cli.commands.run.context import Statistic
+    samples, errors, stat, known_of = [], [], Statistic(), {}
+    try:
+        for event in from_schema(schema, config=config).execute():
+            if isinstance(event, events.ScenarioFinished):
+                stat.on_scenario_finished(event.recorder)       # what the CLI's ExecutionContext does with the event
+                for case_id, node in event.recorder.cases.items():
+                    known_of[case_id] = (list(node.value.headers or {}), node.parent_id is not None)
+                for case_id, checks in event.recorder.checks.items():
+                    for check in checks:
+                        if check.failure_info is not None:
+                            node = event.recorder.cases.get(case_id)
+                            samples.append((event.recorder.label, case_id, check.name, check.failure_info.code_sample,
+                                            list(node.value.headers or {}) if node is not None else [],
+                                            node is not None and node.parent_id is not None))
+            elif isinstance(event, (events.NonFatalError, events.FatalError)):
+                errors.append(str(getattr(event, "info", event))[:300])
+    finally:
+        rec.srv.policy = None
+    by_id = {}
+    for r in rec.take():
+        cid = next((v for k, v in r["headers"] if k.lower() == CASE_ID_HEADER), None)
+        by_id.setdefault(cid, []).append(r)
+    # the reports as the JUnit handler renders them: one per test case with new failures
+    for label, groups in stat.failures.items():
+        for kid, shown in render_groups(groups.values()):
+            samples.append((label, kid, "<report>", shown, *known_of.get(kid, ([], False))))
+    return samples, by_id, errors, base
+
+
+def engine_runs(chk, drv, rec, tbl, auto, n, with_curl):
+    rng = chk.rng
+    items, wires = [], []
+    for _ in range(n):
+        setup = gen_engine_setup(rng)
+        samples, by_id, errors, base = run_engine_setup(setup, rec)
+        rin_setup = {k: v for k, v in setup.items() if k != "scheme"}
+        chk.case("engine", key=rin_setup, nontrivial=bool(samples),
+                 sample={"setup": rin_setup, "samples": [s[:4] for s in samples[:3]], "errors": errors[:2]})
+        chk.feature(f"engine:security={setup['security']}")
+        chk.feature(f"engine:policy={setup['policy']}")
+        chk.feature(f"engine:code-samples={min(len(samples), 5)}")
+        if errors:
+            chk.feature("engine:run-with-engine-errors")
+        seen = set()
+        for label, case_id, name, cmd, known, is_derived in samples:
+            if name == "<report>" and (case_id is None or cmd is None):
+                chk.disagreement("engine", rin_setup, "'<n>. Test Case ID: <id>' … 'Reproduce with:' <command>", [case_id, cmd])
+                continue
+            if (case_id, cmd) in seen:
+                continue
+            seen.add((case_id, cmd))
+            chk.feature(f"engine:{'report' if name == '<report>' else 'sample'}-for-{'derived' if is_derived else 'generated'}-case")
+            recs = by_id.get(case_id, [])
+            if len(recs) != 1:
+                # (a case that was sent twice, or never reached the server: no single original to compare with)
+                chk.feature(f"engine:requests-received-for-the-case={len(recs)}")
+                continue
+            wire = recs[0]
+            text, is_text = text_of(wire["body"] or None)
+            # (trailing blanks of a value are kept as sent: the specification's curl keeps them too)
+            headers = [[k, v] for k, v in wire["headers_as_sent"] if k.lower() != "host"]
+            orig = {"method": wire["method"], "url": f"http://127.0.0.1:{rec.port}" + wire["target"], "body": text,
+                    "headers": headers, "verify": setup["network"]["tls_verify"], "known": known}
+            scope = is_text and all(v.isascii() for _, v in headers)
+            rin = {"setup": rin_setup, "scenario": label, "check": name, "case_id_is_derived": is_derived}
+            items.append((cmd, orig, scope, rin))
+            if with_curl and scope and "\0" not in cmd and name != "<report>":
+                wires.append((cmd, canon_wire(wire), known, rin))
+    judge_commands(chk, drv, "engine", items, tbl, auto, site="failure-report")
+    for cmd, orig_wire, known, rin in wires:
+        rec.take()
+        r = run_curl_command(cmd)
+        got = [canon_wire(x) for x in rec.take()]
+        problems = wire_problems(orig_wire, got, r, tbl, auto, known, site="failure-report")
+        chk.case("engine:sh+curl", key=cmd, nontrivial=True)
+        chk.feature("engine:sh+curl:reproduced" if not problems else "engine:sh+curl:violation")
+        for sig, what in problems:
+            chk.violation(sig, what, {"kind": "command", "mechanism": "engine", "input": rin, "command": cmd,
                                       "original_wire": {**orig_wire, "body": orig_wire["body"].decode("latin-1")},
                                       "curl_wire": [{**x, "body": x["body"].decode("latin-1")} for x in got]})
 
@@ -1158,6 +1872,16 @@ def _run(chk):
         "reproduces_full_false_emptyHeader / _dataAt / _filter: kernel-checked witnesses (F16)",
         "utf8_text_roundtrip, utf8Enc_eq_core, utf8_ascii: a bytes payload that encodes a text is printed as that text",
         "generate_keeps_header_order: the headers sent are a sub-list of the prepared request's headers",
+        "find_failure_data_selects: after every recorder history find_failure_data returns the case, the request headers and "
+        "the verify flag most recently recorded for the id the failure is reported for (failure.case_id or the validated case), "
+        "and raises exactly when one is missing",
+        "failure_stored_under_reported_id, recorded_samples_are_for_their_case: every failed check listed under test case k "
+        "carries the sample built from the case and the exchange on record for k itself when the failure was reported",
+        "failure_sample_reproduces(_repaired): for every history and reported failure the code sample re-sends the request "
+        "sent for the reported test case (hypotheses: re-preparation faithful up to header order, wf)",
+        "sample_with_foreign_header_fails + parent_request_witness: a command carrying a non-automatic header of another "
+        "request (the parent's credentials) never reproduces the failing request",
+        "indented_command_reads_the_same, report_line_reproduces: the indented line of the report reads as the same command",
     ]
     chk.partial += [
         "requests.Request.prepare (URL quoting, header validation, body encoding) is an input of the model, not modelled: "
@@ -1167,12 +1891,21 @@ def _run(chk):
         "bytes.decode(errors='replace') on invalid UTF-8 is modelled and compared exhaustively on short byte strings; "
         "what it does to non-text payloads is outside the property",
         "multipart/binary payloads that are not valid UTF-8 are outside the property and only counted",
+        "the recorder theorems take `prepare_request` as a parameter: that re-preparing the case with the headers of the sent "
+        "request gives that request again (Faithful) is measured on every replayed history, not proved; histories record "
+        "no multipart case (a fresh boundary per prepare())",
+        "not exercised: the CLI's click.echo / colour layer beyond the styling formatter, the JUnit XML writer, the "
+        "extraction-failure history lines of output.py (their own as_curl_command call)",
     ]
     chk.sampled_only += [
         "specification shParse = real /bin/sh (dash) and curlSem = real curl 7.88: differential runs, not proofs",
         "end-to-end equality on the wire (requests vs sh+curl against a loopback recorder): thorough tier only",
-        "the engine / CLI / JUnit paths that carry the string (find_failure_data, format_failures) are exercised "
-        "through Case.as_curl_command with the headers of the sent request; the surrounding report text is not checked",
+        "Statistic.on_scenario_finished (grouping by test case, unique-failure bookkeeping) and format_failures are run on "
+        "every recorder (generated histories and engine runs) and the command shown under 'Test Case ID: k' is judged "
+        "against the request of k; they are not modelled",
+        "real engine runs (unit phases, ignored_auth + a case-deriving check, loopback server): 8 quick / 80 thorough "
+        "configurations; the stateful executor's validate_response is driven directly with scripted checks, no real "
+        "state-machine run",
     ]
     chk.assumptions += [
         "a prepared request satisfies wf: requests' check_header_validity (no leading whitespace, no CR/LF, no ':' in "
@@ -1198,6 +1931,7 @@ def _run(chk):
     corr_generate(chk, drv, tbl, auto, variants, chk.budget(2500, 25000))
     corr_generate(chk, drv, tbl, auto, variants, chk.budget(1500, 15000), wf_only=True, mechanism="generate-wf")
     corr_as_curl(chk, drv, tbl, auto, variants, chk.budget(1500, 12000))
+    corr_recorder(chk, drv, tbl, auto, variants, chk.budget(400, 4000))
 
     # 3. the specifications against the real sh / curl
     validate_sh_spec(chk, drv)
@@ -1207,6 +1941,7 @@ def _run(chk):
             loopback_replay(chk, drv, rec, tbl, auto, 2000)
         else:
             loopback_replay(chk, drv, rec, tbl, auto, 40)
+        engine_runs(chk, drv, rec, tbl, auto, chk.budget(8, 80), with_curl=True)
     chk.exhaustive = False
     chk.notes.append(f"quote: all strings over {QUOTE_ALPHABET!r} up to length {5 if chk.thorough else 4}")
 
@@ -1229,6 +1964,8 @@ def _replay(chk, data):
         print("recorded model:", rp.get("model"))
         print("recorded impl :", rp.get("impl"))
         inp = rp.get("input")
+        if isinstance(inp, dict) and "plan" in inp:
+            return _replay_plan(chk, drv, tbl, auto, inp, rp)
         if isinstance(inp, dict) and "case" in inp:
             schema = build_schema("http://127.0.0.1:1/api")
             flow = "recorded" if inp["flow"] in ("recorded", "loopback") else "direct"
@@ -1248,6 +1985,10 @@ def _replay(chk, data):
             print("impl now :", repr(curl_mod.quote(inp)), " model now:", repr(drv.one("quote", {"ss": [inp]})[0]))
         return 0
     inp = rp.get("input", {})
+    if isinstance(inp, dict) and "plan" in inp:
+        return _replay_plan(chk, drv, tbl, auto, inp, rp)
+    if isinstance(inp, dict) and "setup" in inp:
+        return _replay_engine(chk, drv, tbl, auto, inp, rp)
     print("input:", inp)
     print("recorded command:", rp.get("command"))
     cmd = None
@@ -1270,6 +2011,63 @@ def _replay(chk, data):
         print("impl now:", cmd)
         print("real sh :", sh_command_argv(cmd))
         print("spec    :", drv.one("judge", {"auto": auto, "orig": rp["original"], "cmd": cmd}))
+    return 0
+
+
+def _replay_plan(chk, drv, tbl, auto, inp, rp):
+    """a recorder history: run the plan again on the real recorder and on the model, judge every code sample"""
+    schema = build_schema("http://127.0.0.1:1/api")
+    log, outcomes, by_msg, final, objs = run_plan(schema, inp["plan"])
+    print("history (the recorder operations performed):")
+    for i, e in enumerate(log):
+        print(f"  {i:2d} {json.dumps(e, ensure_ascii=False)[:300]}" + (f"   -> {outcomes[i]}" if i in outcomes else ""))
+    m = drv.one("history", {"ops": _wire_log(log)})
+    print("impl checks :", final["checks"])
+    print("model checks:", {k: [[nm, fd is not None] for nm, fd in nodes] for k, nodes in m["checks"]})
+    fidx = [i for i, e in enumerate(log) if e["k"] == "failure"]
+    for i, o in zip(fidx, m["outcomes"]):
+        if inp.get("failure") not in (None, log[i]["msg"]):
+            continue
+        print(f"failure {log[i]['msg']} (validated case {log[i]['pid']!r}, names {log[i]['fcid']!r}): impl {outcomes[i]}, model {o}")
+        if outcomes[i] != "ok" or log[i]["msg"] not in by_msg:
+            continue
+        key, cmd = by_msg[log[i]["msg"]]
+        print("  listed under :", key)
+        print("  impl now     :", cmd)
+        if "ok" in o:
+            print("  model now    :", drv.one("generate", {"vs": detect_variants(chk, drv, tbl), "tbl": tbl,
+                                                           "req": _model_req(objs, o["ok"])})["cmd"])
+        sel = drv.one("select", {"ops": _wire_log(log), "n": i, "key": key})
+        print("  specification: the sample must reproduce", sel)
+        if "ok" in sel["data"]:
+            d, sent = sel["data"]["ok"], sel["sent"]
+            orig = {"method": sent["method"], "url": sent["uri"], "body": sent["body"], "headers": d["headers"], "verify": d["verify"]}
+            print("  real sh      :", sh_command_argv(cmd))
+            print("  spec verdict :", drv.one("judge", {"auto": auto, "orig": orig, "cmd": cmd}))
+    return 0
+
+
+def _replay_engine(chk, drv, tbl, auto, inp, rp):
+    setup = dict(inp["setup"])
+    setup["scheme"] = setup["raw"]["components"]["securitySchemes"]["Sec"]
+    print("setup:", json.dumps(inp["setup"], ensure_ascii=False)[:3000])
+    print("recorded command:", rp.get("command"))
+    with Recorder() as rec:
+        samples, by_id, errors, base = run_engine_setup(setup, rec)
+        print(f"(run again against a fresh loopback server on port {rec.port}; engine errors: {errors})")
+        for label, case_id, name, cmd, known, is_derived in samples:
+            recs = by_id.get(case_id, [])
+            print(f"scenario {label!r} check {name} test case {case_id} ({'derived' if is_derived else 'generated'}):")
+            print("  impl now:", cmd)
+            if cmd is None:
+                continue
+            for wire in recs:
+                text, _ = text_of(wire["body"] or None)
+                headers = [[k, v] for k, v in wire["headers_as_sent"] if k.lower() != "host"]
+                orig = {"method": wire["method"], "url": f"http://127.0.0.1:{rec.port}" + wire["target"], "body": text,
+                        "headers": headers, "verify": setup["network"]["tls_verify"]}
+                print("  the server received:", orig)
+                print("  spec verdict:", drv.one("judge", {"auto": auto, "orig": orig, "cmd": cmd})["ok"])
     return 0
 
 
